@@ -22,6 +22,10 @@ func split(ctx context.Context, r io.Reader) (<-chan string, <-chan error) {
 
 		block := ""
 		for sc.Scan() {
+			if sc.Err() != nil {
+				// the reader has failed: the rest of the buffer may be a torn line
+				break
+			}
 			select {
 			case <-ctx.Done():
 				return
